@@ -95,7 +95,7 @@ theorem ListInv.step_ok (P : AesPrims) (hW : P.WF) {ct code rest key hk : Bytes}
       obtain ⟨bs0, hct0, _, hb0, hrem0, _, hol0, hpos0, hsame, _⟩ := sp.ok out rfl
       have hrem0 : v'.dataRemaining = v.dataRemaining - bs0.length := hrem0
       have hct0 : v'.ghostCt = v.ghostCt ++ bs0 := hct0
-      have hsame : v.dataRemaining = 0 → v' = v := hsame
+      have hsame : v.dataRemaining = 0 → v.finalized = true → v' = v := hsame
       by_cases hp : 0 < v.dataRemaining
       · obtain ⟨bs, s', hrd, hct, hne, hlast⟩ := sp.src out rfl hp
         have hct : v'.ghostCt = v.ghostCt ++ bs := hct
@@ -151,12 +151,37 @@ theorem ListInv.step_ok (P : AesPrims) (hW : P.WF) {ct code rest key hk : Bytes}
             rw [(hR'.inv.notfin hnf).2] at hm
             cases hm
       · have h0 : v.dataRemaining = 0 := by omega
-        have hv : v' = v := hsame h0
-        subst hv
-        have : out = [] := List.eq_nil_of_length_eq_zero (by omega)
-        subst this
-        rw [List.append_nil]
-        exact ⟨hI, Nat.le_refl _, fun _ h => by omega⟩
+        have hout : out = [] := List.eq_nil_of_length_eq_zero (by omega)
+        cases hvf : v.finalized with
+        | true =>
+          have hv : v' = v := hsame h0 hvf
+          subst hv
+          subst hout
+          rw [List.append_nil]
+          exact ⟨hI, Nat.le_refl _, fun _ h => by omega⟩
+        | false =>
+          -- an entry without ciphertext: this call read the code and compared it
+          obtain ⟨hfin', code0, hre, c0, hm0⟩ := sp.emp out rfl h0 hvf
+          have hfin' : v'.finalized = true := hfin'
+          have hre : readExact listSrc v.inner AUTH_CODE_LENGTH = (.ok code0, v'.inner) := hre
+          have hm0 : v'.ghostMac = some (c0, code0) := hm0
+          have hb0' : bs0 = [] := List.eq_nil_of_length_eq_zero (by omega)
+          refine ⟨⟨hR', ?_, ?_, ?_⟩, by omega, fun _ h => by omega⟩
+          · rw [hct0, hb0', List.append_nil, hrem0, hb0', List.length_nil, Nat.sub_zero]
+            exact hI.ghost
+          · intro hf; rw [hfin'] at hf; cases hf
+          · intro c st hm
+            rw [hm0] at hm
+            simp only [Option.some.injEq, Prod.mk.injEq] at hm
+            obtain ⟨sc, hi⟩ := hI.inner hvf
+            have hd : ct.drop (ct.length - v.dataRemaining) = [] := by
+              rw [h0, Nat.sub_zero]; exact List.drop_of_length_le (Nat.le_refl _)
+            rw [hd, List.nil_append] at hi
+            obtain ⟨sc', hre'⟩ := readExact_list (code ++ rest) sc AUTH_CODE_LENGTH
+              (by rw [List.length_append]; omega)
+            rw [hi, hre'] at hre
+            simp only [Prod.mk.injEq, Out.ok.injEq] at hre
+            rw [← hm.2, ← hre.1, ← hcl, List.take_left]
   obtain ⟨o, w, e, h⟩ := goal
   cases e
   exact h
@@ -208,40 +233,60 @@ theorem ListInv.step (P : AesPrims) (hW : P.WF) {ct code rest key hk : Bytes} (h
         have := h2' (by omega)
         simp at *
         omega
-      | inr h3 =>
-        obtain ⟨bs, s', s'', hrd, hbl, hbp, hlast⟩ := h3
-        obtain ⟨sc, hi⟩ := hin (by omega)
-        rw [hi] at hrd
-        obtain ⟨cap, hc1, _, hc3⟩ := listRd_eq (ct.drop (ct.length - v.dataRemaining) ++ (code ++ rest)) sc (min v.dataRemaining n)
-        rw [hc3] at hrd
-        simp only [Prod.mk.injEq, RdRes.ok.injEq] at hrd
-        obtain ⟨hbs, hs'⟩ := hrd
-        have hdl : (ct.drop (ct.length - v.dataRemaining)).length = v.dataRemaining := by
-          rw [List.length_drop]; omega
-        have hcap : cap = v.dataRemaining := by
-          have := congrArg List.length hbs
-          rw [List.length_take, List.length_append, hdl] at this
-          omega
-        rw [hcap] at hbs hs'
-        have hbs' : bs = ct.drop (ct.length - v.dataRemaining) := by
-          rw [← hbs, List.take_append_of_le_length (by omega)]
-          exact List.take_of_length_le (by omega)
-        have hs2 : s' = ⟨code ++ rest, sc.tail⟩ := by
-          rw [← hs']
-          congr 1
-          rw [List.drop_append_of_le_length (by omega), List.drop_of_length_le (by omega), List.nil_append]
-        have hall : v.ghostCt ++ bs = ct := by
-          rw [hI.ghost, hbs', List.take_append_drop]
-        obtain ⟨sc', hre⟩ := readExact_list (code ++ rest) sc.tail AUTH_CODE_LENGTH
-          (by rw [List.length_append]; omega)
-        rw [hs2, hre] at hlast
-        cases hlast with
-        | inl h => obtain ⟨e', h⟩ := h; cases h
-        | inr h =>
-          obtain ⟨code', h, hne⟩ := h
-          simp only [Prod.mk.injEq, Out.ok.injEq] at h
-          apply hne
-          rw [hall, hI.run.hkeyEq, hmac, ← h.1, ← hcl, List.take_left]
+      | inr h34 =>
+        cases h34 with
+        | inl h3 =>
+          obtain ⟨bs, s', s'', hrd, hbl, hbp, hlast⟩ := h3
+          obtain ⟨sc, hi⟩ := hin (by omega)
+          rw [hi] at hrd
+          obtain ⟨cap, hc1, _, hc3⟩ := listRd_eq (ct.drop (ct.length - v.dataRemaining) ++ (code ++ rest)) sc (min v.dataRemaining n)
+          rw [hc3] at hrd
+          simp only [Prod.mk.injEq, RdRes.ok.injEq] at hrd
+          obtain ⟨hbs, hs'⟩ := hrd
+          have hdl : (ct.drop (ct.length - v.dataRemaining)).length = v.dataRemaining := by
+            rw [List.length_drop]; omega
+          have hcap : cap = v.dataRemaining := by
+            have := congrArg List.length hbs
+            rw [List.length_take, List.length_append, hdl] at this
+            omega
+          rw [hcap] at hbs hs'
+          have hbs' : bs = ct.drop (ct.length - v.dataRemaining) := by
+            rw [← hbs, List.take_append_of_le_length (by omega)]
+            exact List.take_of_length_le (by omega)
+          have hs2 : s' = ⟨code ++ rest, sc.tail⟩ := by
+            rw [← hs']
+            congr 1
+            rw [List.drop_append_of_le_length (by omega), List.drop_of_length_le (by omega), List.nil_append]
+          have hall : v.ghostCt ++ bs = ct := by
+            rw [hI.ghost, hbs', List.take_append_drop]
+          obtain ⟨sc', hre⟩ := readExact_list (code ++ rest) sc.tail AUTH_CODE_LENGTH
+            (by rw [List.length_append]; omega)
+          rw [hs2, hre] at hlast
+          cases hlast with
+          | inl h => obtain ⟨e', h⟩ := h; cases h
+          | inr h =>
+            obtain ⟨code', h, hne⟩ := h
+            simp only [Prod.mk.injEq, Out.ok.injEq] at h
+            apply hne
+            rw [hall, hI.run.hkeyEq, hmac, ← h.1, ← hcl, List.take_left]
+        | inr h4 =>
+          -- an entry without ciphertext: the code read is the stored one, and it is the HMAC of nothing
+          obtain ⟨h0, hnf, s'', hl⟩ := h4
+          obtain ⟨sc, hi⟩ := hI.inner hnf
+          have hd : ct.drop (ct.length - v.dataRemaining) = [] := by
+            rw [h0, Nat.sub_zero]; exact List.drop_of_length_le (Nat.le_refl _)
+          rw [hd, List.nil_append] at hi
+          obtain ⟨sc', hre⟩ := readExact_list (code ++ rest) sc AUTH_CODE_LENGTH
+            (by rw [List.length_append]; omega)
+          rw [hi, hre] at hl
+          have hg : v.ghostCt = ct := by rw [hI.ghost, h0, Nat.sub_zero, List.take_length]
+          cases hl with
+          | inl h => obtain ⟨e', h⟩ := h; cases h
+          | inr h =>
+            obtain ⟨code', h, hne⟩ := h
+            simp only [Prod.mk.injEq, Out.ok.injEq] at h
+            apply hne
+            rw [hg, hI.run.hkeyEq, hmac, ← h.1, ← hcl, List.take_left]
   | ok out => exact ⟨out, v', rfl, hI.step_ok P hW hL hcl n hr⟩
 
 /-- number of non-empty caller buffers in a schedule -/
